@@ -287,6 +287,33 @@ func ruleExternals(r *rep.Report, p *load.Program, an *mem.Analysis, roots []*ss
 				r.Fail("M4-externals", cfg, cone+": entropy is read only where documented", ssau.InstrPos(p, sites[0]), "entropy:"+ssau.QName(fn), ssau.QName(fn)+" reads an entropy source ("+k+")")
 			}
 		}
+		// a reader is mutated by Read: it must be the caller's own (a parameter) or crypto/rand.Reader (trusted concurrency-safe)
+		for k, sites := range in.Externs {
+			if m, ok := mem.Externs[k]; !ok || !m.Entropy {
+				continue
+			}
+			for _, site := range sites {
+				call, ok := site.(ssa.CallInstruction)
+				if !ok || len(call.Common().Args) == 0 {
+					continue
+				}
+				var bad []string
+				for _, rt := range in.Pts[call.Common().Args[0]].Sorted() {
+					switch rt.Kind {
+					case mem.Param:
+					case mem.Global:
+						if g, ok := rt.Ref.(*ssa.Global); ok && g.Pkg != nil && g.Pkg.Pkg.Path() == "crypto/rand" && g.Name() == "Reader" {
+							continue
+						}
+						bad = append(bad, rt.String())
+					default:
+						bad = append(bad, rt.String())
+					}
+				}
+				r.Check(len(bad) == 0, "M1-stateful-reader", cfg, cone+": an entropy reader is the caller's own or crypto/rand.Reader", ssau.InstrPos(p, site),
+					k+" reads from a parameter or crypto/rand.Reader", fmt.Sprintf("%s in %s reads from %v: a reader is mutated by every Read, so a package-level or otherwise shared reader is shared mutable state", k, ssau.QName(fn), bad))
+			}
+		}
 		for _, u := range in.Unres {
 			r.Fail("M4-externals", cfg, cone+": every call resolves", ssau.InstrPos(p, u), "unresolved:"+ssau.QName(fn), "unresolved dynamic call in "+ssau.QName(fn))
 		}
